@@ -23,7 +23,7 @@ ASSUMPTIONS = ['arguments are passed as copies (the shipped functions eliminate 
 
 def plan(prop, tier):
     if tier == 'quick':
-        return {'runs': 3000, 'cap': 60.0, 'det_runs': 30}
+        return {'runs': 3000, 'cap': 60.0, 'det_runs': 30, 'legs': [{'hashseed': h} for h in (0, 1, 2, 3)]}
     return {'cap': 120.0, 'budget_s': 900, 'legs': [{'hashseed': h} for h in (0, 1, 2, 3, 4, 5, 6, 7)]}
 
 
